@@ -62,7 +62,9 @@ class Lock:
 def sync_tree(dst):
     """copy /repo's working tree (no target/, no .git) to dst, deleting stale files"""
     os.makedirs(dst, exist_ok=True)
-    subprocess.run(['rsync', '-a', '--delete', '--exclude', 'target', '--exclude', '.git', '--exclude', '/verif_*',
+    # by content, WITHOUT preserving modification times: a file whose content changes must look newer than the last build, or
+    # cargo's mtime-based freshness check keeps the previous tree's object code (a source copied back with its older time stamp)
+    subprocess.run(['rsync', '-rlpgoD', '--checksum', '--delete', '--exclude', 'target', '--exclude', '.git', '--exclude', '/verif_*',
                     REPO + '/', dst + '/'], check=True)
 
 
@@ -129,6 +131,7 @@ def native_binary(release=False):
         os.makedirs(d, exist_ok=True)
         work = os.path.join(SCRATCH_ROOT, 'native-src')
         sync_tree(work)
+        os.utime(os.path.join(work, 'src', 'main.rs'))      # a cache miss always recompiles the crate (never trust cargo's mtime freshness across trees)
         env = dict(ENV, CARGO_TARGET_DIR=os.path.join(CACHE, 'target-native'))
         cmd = ['cargo', 'build', '--offline', '--bin', 'fselect'] + (['--release'] if release else [])
         if release:
@@ -143,10 +146,12 @@ def native_binary(release=False):
     return exe
 
 
-def native_test_binary(tag, appends):
+def native_test_binary(tag, appends, subs=None):
     """build the crate's test harness with extra `#[cfg(test)]` modules appended to source files of a scratch
-    copy. appends: {relative source file: rust text}. -> path of the test executable (cached per tree+text)"""
-    h = hashlib.sha256((repo_hash() + json.dumps(appends, sort_keys=True)).encode()).hexdigest()[:20]
+    copy. appends: {relative source file: rust text}. subs: {relative source file: [(old text, new text)]} — textual
+    substitutions on the scratch copy, used ONLY to pin an environment input (the clock) to the value a counterexample names.
+    -> path of the test executable (cached per tree+text)"""
+    h = hashlib.sha256((repo_hash() + json.dumps(appends, sort_keys=True) + json.dumps(subs or {}, sort_keys=True)).encode()).hexdigest()[:20]
     d = os.path.join(CACHE, 'testbin')
     exe = os.path.join(d, '%s-%s' % (tag, h))
     if os.path.exists(exe):
@@ -157,9 +162,18 @@ def native_test_binary(tag, appends):
         os.makedirs(d, exist_ok=True)
         work = os.path.join(SCRATCH_ROOT, 'native-src')
         sync_tree(work)
+        for rel, pairs in (subs or {}).items():
+            src = open(os.path.join(work, rel)).read()
+            for a, b in pairs:
+                if a not in src:
+                    sync_tree(work)
+                    raise BuildError('substitution anchor %r not found in %s' % (a, rel))
+                src = src.replace(a, b)
+            open(os.path.join(work, rel), 'w').write(src)
         for rel, text in appends.items():
             with open(os.path.join(work, rel), 'a') as f:
                 f.write('\n' + text + '\n')
+        os.utime(os.path.join(work, 'src', 'main.rs'))
         env = dict(ENV, CARGO_TARGET_DIR=os.path.join(CACHE, 'target-native'))
         p = subprocess.run(['cargo', 'test', '--offline', '--no-run', '--message-format=json', '--bin', 'fselect'],
                            cwd=work, env=env, stdout=subprocess.PIPE, stderr=subprocess.PIPE, text=True)
@@ -268,10 +282,10 @@ def write_replay(pid, obj):
     return p
 
 
-def native_unit(tag, rel_file, module_text, test_path, input_text, timeout=120):
+def native_unit(tag, rel_file, module_text, test_path, input_text, timeout=120, subs=None):
     """append a #[cfg(test)] module to one source file of a scratch copy, run one test of it with VERIF_INPUT set;
     -> (exit status, list of lines printed after the VERIF_OUT marker)"""
-    exe = native_test_binary(tag, {rel_file: module_text})
+    exe = native_test_binary(tag, {rel_file: module_text}, subs)
     rc, out, err = run_native_test(exe, test_path, env={'VERIF_INPUT': input_text}, timeout=timeout)
     lines = [l.split('VERIF_OUT ', 1)[1] for l in out.splitlines() if 'VERIF_OUT ' in l]
     return rc, lines, out + err
